@@ -1,3 +1,4 @@
+mod c22;
 mod c54;
 mod selftest;
 mod util;
@@ -5,6 +6,7 @@ mod util;
 fn main() {
     vmon::run_main(&[
         ("SELFTEST", selftest::run),
+        ("C22", c22::run),
         ("C54", c54::run),
     ]);
 }
